@@ -415,6 +415,10 @@ def run_case(ctx, spec, cases_k, cases_g, meta, kmeta, jit_cases, jit_meta, jt_c
     # ---- AddJitterOp: only the diagonal changes, by one constant >= noise ------------
     sys_mat = np.asarray(AddJitterOp(flatten_and_concat(K, noise_arr),
                                      initial_jitter_factor=NOISE_VARIANCE_LOWER_BOUND))
+    if n <= 5 or not np.all(np.diag(sys_mat) == np.diag(K) + noise):
+        jit_cases.append("(%s, %s, %s, %s)" % (fmat(K), fl(noise), fl(NOISE_VARIANCE_LOWER_BOUND * max(1.0, float(np.mean(np.diag(K))))),
+                                               fmat(sys_mat)))
+        jit_meta.append(dict(kind="gp", spec=spec))
     off = ~np.eye(n, dtype=bool)
     sigs = np.diag(sys_mat) - np.diag(K)
     sig_final = noise
@@ -433,10 +437,6 @@ def run_case(ctx, spec, cases_k, cases_g, meta, kmeta, jit_cases, jit_meta, jt_c
             return
         sig_final = cands[0]
     ctx.h("jitter_added", jitter_added)
-    if n <= 5 or jitter_added:
-        jit_cases.append("(%s, %s, %s, %s)" % (fmat(K), fl(noise), fl(NOISE_VARIANCE_LOWER_BOUND * max(1.0, float(np.mean(np.diag(K))))),
-                                               fmat(sys_mat)))
-        jit_meta.append(dict(kind="gp", spec=spec))
     if spec["style"] == "jitter":
         # exercise the search itself: an exactly singular K (duplicate rows) with sigsq_init = 0
         z0 = np.array([0.0])
